@@ -253,4 +253,254 @@ theorem clean_rel_shape (p : Bytes) (h : p.head? ≠ some SEP) :
       · exact dotdot_nosep
       · exact (hns c hc).2.2.2
 
+/-! ### "climbs out", without Clean -/
+
+/-- Follow the elements one by one, `d` levels below the starting directory: does the walk step
+above the start at some point?  (empty and "." elements stay, ".." goes up, anything else goes down) -/
+def climbsFrom : Nat → List Bytes → Bool
+  | _, [] => false
+  | d, c :: cs =>
+    if c = [] ∨ c = dotB then climbsFrom d cs
+    else if c = dotdotB then
+      (match d with
+       | 0 => true
+       | d' + 1 => climbsFrom d' cs)
+    else climbsFrom (d + 1) cs
+
+/-- the relative name climbs out of the directory it is resolved in. -/
+def climbsOut (name : Bytes) : Bool := climbsFrom 0 (splitSep name)
+
+def dotdotSlash : Bytes := [DOT, DOT, SEP]
+
+theorem cleanComps_cons (r : Bool) (st : List Bytes) (c : Bytes) (cs : List Bytes) :
+    cleanComps r st (c :: cs) = cleanComps r (cleanStep r st c) cs := rfl
+
+theorem cleanStep_skip (r : Bool) (st : List Bytes) {c : Bytes} (h : c = [] ∨ c = dotB) :
+    cleanStep r st c = st := by simp [cleanStep, h]
+
+theorem cleanStep_dd_nil : cleanStep false [] dotdotB = [dotdotB] := by decide
+
+theorem cleanStep_dd_dd (st : List Bytes) :
+    cleanStep false (dotdotB :: st) dotdotB = dotdotB :: dotdotB :: st := by
+  have h1 : ¬ (dotdotB = [] ∨ dotdotB = dotB) := by decide
+  simp [cleanStep, h1]
+
+theorem cleanStep_dd_pop {top : Bytes} (st : List Bytes) (h : top ≠ dotdotB) :
+    cleanStep false (top :: st) dotdotB = st := by
+  have h1 : ¬ (dotdotB = [] ∨ dotdotB = dotB) := by decide
+  simp [cleanStep, h1, h]
+
+theorem climbsFrom_skip (d : Nat) {c : Bytes} (cs : List Bytes) (h : c = [] ∨ c = dotB) :
+    climbsFrom d (c :: cs) = climbsFrom d cs := by simp [climbsFrom, h]
+
+theorem climbsFrom_dd_zero (cs : List Bytes) : climbsFrom 0 (dotdotB :: cs) = true := by
+  have h1 : ¬ (dotdotB = [] ∨ dotdotB = dotB) := by decide
+  simp [climbsFrom, h1]
+
+theorem climbsFrom_dd_succ (d : Nat) (cs : List Bytes) :
+    climbsFrom (d + 1) (dotdotB :: cs) = climbsFrom d cs := by
+  have h1 : ¬ (dotdotB = [] ∨ dotdotB = dotB) := by decide
+  simp [climbsFrom, h1]
+
+theorem climbsFrom_normal (d : Nat) {c : Bytes} (cs : List Bytes) (h : Normal c) :
+    climbsFrom d (c :: cs) = climbsFrom (d + 1) cs := by
+  simp [climbsFrom, h.1, h.2.1, h.2.2.1]
+
+theorem climbs_stack (cs : List Bytes) (hcs : ∀ c ∈ cs, SEP ∉ c) :
+    ∀ (ns : List Bytes) (k : Nat), (∀ c ∈ ns, Normal c) →
+      ∃ (ns' : List Bytes) (k' : Nat),
+        cleanComps false (ns ++ List.replicate k dotdotB) cs = ns' ++ List.replicate k' dotdotB ∧
+        (∀ c ∈ ns', Normal c) ∧ (0 < k' ↔ 0 < k ∨ climbsFrom ns.length cs = true) := by
+  induction cs with
+  | nil =>
+    intro ns k hns
+    exact ⟨ns, k, rfl, hns, by simp [climbsFrom]⟩
+  | cons c cs ih =>
+    intro ns k hns
+    have hcs' : ∀ x ∈ cs, SEP ∉ x := fun x hx => hcs x (List.mem_cons_of_mem _ hx)
+    rw [cleanComps_cons]
+    by_cases h1 : c = [] ∨ c = dotB
+    · rw [cleanStep_skip _ _ h1, climbsFrom_skip _ _ h1]
+      exact ih hcs' ns k hns
+    · by_cases h2 : c = dotdotB
+      · subst h2
+        cases ns with
+        | nil =>
+          have hst : cleanStep false ([] ++ List.replicate k dotdotB) dotdotB =
+              [] ++ List.replicate (k + 1) dotdotB := by
+            cases k with
+            | zero => exact cleanStep_dd_nil
+            | succ k =>
+              simp only [List.nil_append, List.replicate_succ]
+              exact cleanStep_dd_dd _
+          rw [hst]
+          obtain ⟨ns', k', e, hn', hk⟩ := ih hcs' [] (k + 1) (by simp)
+          refine ⟨ns', k', e, hn', ?_⟩
+          rw [hk, List.length_nil, climbsFrom_dd_zero]
+          simp
+        | cons n ns'' =>
+          have hn : n ≠ dotdotB := (hns n (by simp)).2.2.1
+          rw [List.cons_append, cleanStep_dd_pop _ hn, List.length_cons, climbsFrom_dd_succ]
+          exact ih hcs' ns'' k (fun x hx => hns x (List.mem_cons_of_mem _ hx))
+      · have hn : Normal c := ⟨fun e => h1 (Or.inl e), fun e => h1 (Or.inr e), h2, hcs c (by simp)⟩
+        rw [cleanStep_normal false _ hn, climbsFrom_normal _ _ hn]
+        have := ih hcs' (c :: ns) k (by
+          intro x hx
+          simp only [List.mem_cons] at hx
+          rcases hx with rfl | hx
+          · exact hn
+          · exact hns x hx)
+        simpa using this
+
+theorem joinSep_normal_head {n : Bytes} {rest : List Bytes} (hn : Normal n) :
+    ∃ b bs, n = b :: bs ∧ b ≠ SEP ∧ (joinSep (n :: rest)).head? = some b := by
+  have hne : n ≠ [] := hn.1
+  cases n with
+  | nil => exact absurd rfl hne
+  | cons b bs =>
+    refine ⟨b, bs, rfl, ?_, ?_⟩
+    · intro e; apply hn.2.2.2; rw [e]; simp
+    · cases rest with
+      | nil => rfl
+      | cons d ds => rw [joinSep_cons_cons]; rfl
+
+/-- a non-empty join of ordinary elements is not ".", not "..", does not start with "../" or "/". -/
+theorem joinSep_normal_plain {ns : List Bytes} (hne : ns ≠ []) (hns : ∀ c ∈ ns, Normal c) :
+    joinSep ns ≠ dotB ∧ joinSep ns ≠ dotdotB ∧ ¬ dotdotSlash <+: joinSep ns ∧
+      (joinSep ns).head? ≠ some SEP ∧ joinSep ns ≠ [] := by
+  have hsp := splitSep_joinSep hne (normal_nosep_of_mem hns)
+  cases ns with
+  | nil => exact absurd rfl hne
+  | cons n rest =>
+    have hn := hns n (by simp)
+    obtain ⟨b, bs, _, hb, hhead⟩ := joinSep_normal_head (rest := rest) hn
+    refine ⟨?_, ?_, ?_, ?_, ?_⟩
+    · intro e
+      rw [e] at hsp
+      have : splitSep dotB = [dotB] := by decide
+      rw [this] at hsp
+      injection hsp with h _
+      exact hn.2.1 h.symm
+    · intro e
+      rw [e] at hsp
+      have : splitSep dotdotB = [dotdotB] := by decide
+      rw [this] at hsp
+      injection hsp with h _
+      exact hn.2.2.1 h.symm
+    · rintro ⟨t, ht⟩
+      have e : dotdotSlash ++ t = dotdotB ++ SEP :: t := rfl
+      rw [← ht, e] at hsp
+      simp only [splitSep] at hsp
+      rw [splitAux_append_sep dotdot_nosep] at hsp
+      injection hsp with h _
+      exact hn.2.2.1 h.symm
+    · rw [hhead]; simpa using hb
+    · intro e; rw [e] at hhead; cases hhead
+
+/-- **Clean vs. the walk.** For a name that does not start with '/', `Clean(name)` is ".." or starts
+with "../" exactly when following the name's elements steps above the starting directory. -/
+theorem clean_climbs_iff (p : Bytes) (h : p.head? ≠ some SEP) :
+    (cleanPath p = dotdotB ∨ dotdotSlash <+: cleanPath p) ↔ climbsOut p = true := by
+  by_cases hne : p = []
+  · subst hne
+    have h1 : cleanPath [] = dotB := rfl
+    rw [h1]
+    constructor
+    · rintro (h | h)
+      · exact absurd h (by decide)
+      · exact absurd h (by decide)
+    · intro h; exact absurd h (by decide)
+  · obtain ⟨ns', k', hst, hn', hk⟩ :=
+      climbs_stack (splitSep p) (fun c hc => splitSep_nosep (s := p) hc) [] 0 (by simp)
+    simp only [List.replicate_zero, List.append_nil, List.length_nil, Nat.lt_irrefl, false_or] at hst hk
+    unfold climbsOut
+    rw [← hk, cleanPath_rel hne h, hst]
+    simp only [List.reverse_append, List.reverse_replicate]
+    cases k' with
+    | zero =>
+      simp only [List.replicate_zero, List.nil_append, Nat.lt_irrefl, iff_false, not_or]
+      have hnr : ∀ c ∈ ns'.reverse, Normal c := fun c hc => hn' c (List.mem_reverse.mp hc)
+      by_cases he : ns'.reverse = []
+      · rw [if_pos he]; exact ⟨by decide, by decide⟩
+      · rw [if_neg he]
+        obtain ⟨_, a2, a3, _, _⟩ := joinSep_normal_plain he hnr
+        exact ⟨a2, a3⟩
+    | succ k =>
+      simp only [Nat.zero_lt_succ, iff_true]
+      rw [if_neg (by simp [List.replicate_succ])]
+      rw [List.replicate_succ, List.cons_append]
+      cases hrest : List.replicate k dotdotB ++ ns'.reverse with
+      | nil => left; rfl
+      | cons d ds =>
+        right
+        rw [joinSep_cons_cons]
+        exact ⟨joinSep (d :: ds), rfl⟩
+
+/-! ### paths as strings -/
+
+/-- the absolute path string of a component list ("/" for the root). -/
+def pathStr (p : Path) : Bytes := SEP :: joinSep p
+
+theorem joinSep_append {a b : List Bytes} (ha : a ≠ []) (hb : b ≠ []) :
+    joinSep (a ++ b) = joinSep a ++ SEP :: joinSep b := by
+  induction a with
+  | nil => exact absurd rfl ha
+  | cons x xs ih =>
+    cases xs with
+    | nil =>
+      simp only [List.singleton_append]
+      rw [joinSep_cons_of_ne_nil x hb]; rfl
+    | cons y ys =>
+      rw [List.cons_append, joinSep_cons_of_ne_nil x (by simp), ih (by simp), joinSep_cons_cons]
+      simp [List.append_assoc]
+
+/-- component-wise "strictly beneath `dir`" is string-wise "starts with dir + '/'". -/
+theorem pathStr_prefix_of_beneath {dir q : Path} (h : dir <+: q) (hne : q ≠ dir) (hd : dir ≠ []) :
+    pathStr dir ++ [SEP] <+: pathStr q := by
+  obtain ⟨t, rfl⟩ := h
+  have ht : t ≠ [] := by intro e; apply hne; simp [e]
+  unfold pathStr
+  rw [joinSep_append hd ht]
+  exact ⟨joinSep t, by simp [List.append_assoc]⟩
+
+theorem splitSep_joinSep_append {dir : List Bytes} (hd : ∀ c ∈ dir, SEP ∉ c) (hne : dir ≠ []) (fp : Bytes) :
+    splitSep (joinSep dir ++ SEP :: fp) = dir ++ splitSep fp := by
+  induction dir with
+  | nil => exact absurd rfl hne
+  | cons x xs ih =>
+    cases xs with
+    | nil =>
+      simp only [joinSep, splitSep, List.singleton_append]
+      rw [splitAux_append_sep (hd x (by simp))]
+    | cons y ys =>
+      rw [joinSep_cons_cons, List.append_assoc, List.cons_append]
+      have := ih (fun c hc => hd c (List.mem_cons_of_mem _ hc)) (by simp)
+      simp only [splitSep] at this ⊢
+      rw [splitAux_append_sep (hd x (by simp)), this]
+      rfl
+
+/-- `joinPath dir fp` is `filepath.Join(dir, fp)` = `Clean(dir + "/" + fp)` for a normalised `dir`. -/
+theorem joinPath_eq_clean {dir : Path} (hd : ∀ c ∈ dir, Normal c) (fp : Bytes) :
+    cleanPath (pathStr dir ++ SEP :: fp) = pathStr (joinPath dir fp) := by
+  have hroot : (pathStr dir ++ SEP :: fp).head? = some SEP := rfl
+  rw [cleanPath_rooted hroot]
+  unfold pathStr joinPath
+  congr 2
+  have hskip : cleanStep true [] [] = [] := by simp [cleanStep]
+  by_cases hne : dir = []
+  · subst hne
+    have hsplit : splitSep (SEP :: joinSep [] ++ SEP :: fp) = [] :: [] :: splitSep fp := by
+      simp [splitSep, joinSep, splitAux_cons_sep]
+    rw [hsplit, cleanComps_cons, hskip, cleanComps_cons, hskip]
+    rfl
+  · have hsplit : splitSep (SEP :: joinSep dir ++ SEP :: fp) = [] :: (dir ++ splitSep fp) := by
+      have := splitSep_joinSep_append (normal_nosep_of_mem hd) hne fp
+      simp only [splitSep, List.cons_append, splitAux_cons_sep] at this ⊢
+      rw [this]
+    rw [hsplit, cleanComps_cons, hskip]
+    simp only [cleanComps, List.foldl_append]
+    have := cleanComps_normal true [] hd
+    simp only [cleanComps, List.append_nil] at this
+    rw [this]
+
 end GIV.Fsx
